@@ -17,6 +17,7 @@ static SINK: Mutex<(u64, Option<Sink>)> = Mutex::new((0, None));
 
 thread_local! {
     static THREAD_TAG: Cell<u32> = const { Cell::new(0) };
+    static THREAD_PAUSED: Cell<bool> = const { Cell::new(false) };
 }
 
 /// Install (or remove) the event sink. The sink receives
@@ -32,6 +33,11 @@ pub fn set_thread_tag(tag: u32) {
     THREAD_TAG.with(|t| t.set(tag));
 }
 
+/// Suppress (or re-enable) events emitted by the current thread.
+pub fn set_thread_paused(paused: bool) {
+    THREAD_PAUSED.with(|p| p.set(paused));
+}
+
 /// Return true if a sink is installed.
 #[inline]
 pub fn enabled() -> bool {
@@ -40,7 +46,7 @@ pub fn enabled() -> bool {
 
 /// Emit an event. `make` is only called if a sink is installed.
 pub fn emit(make: impl FnOnce() -> String) {
-    if !enabled() {
+    if !enabled() || THREAD_PAUSED.with(|p| p.get()) {
         return;
     }
     let text = make();
